@@ -33,7 +33,7 @@ if '--round2' in args:
     items = []
     for d in sorted(glob.glob(os.path.join(root, 'C*'))):
         pid = os.path.basename(d)
-        for x in ('r1', 'r2'):
+        for x in ('r1', 'r2', 'r3', 'r4'):
             pth = os.path.join(d, 'out', x, 'patch.diff')
             if os.path.exists(pth): items.append(dict(name=f'refactor:{pid}{x}', patch=pth, reverse=False, kind='benign', expect=[]))
         for x in ('b1', 'b2'):
